@@ -139,6 +139,7 @@ structure St where
   steps : List Step := []          -- implementation trace (reversed)
   cur : Option Pending := none
   corrOk : Bool := true
+  cbOk : Bool := true     -- every initial SUBSCRIBE so far carried the callback URL current at its call
   parseOk : Bool := true
   notes : List String := []
 
@@ -166,12 +167,16 @@ def finalize (st : St) : St :=
       note { st with corrOk := false } s!"step{n} routed impl[{p.routedLine}] model[{mRouted}]"
     let st := if mSidFor = p.sidForLine then st else
       note { st with corrOk := false } s!"step{n} sidfor impl[{p.sidForLine}] model[{mSidFor}]"
+    let st := if callbackOk st.cfg.callback p.exch then st else
+      note { st with cbOk := false } s!"judge step{n} callback: an initial SUBSCRIBE does not carry the current callback URL {ofS st.cfg.callback}"
     { st with rt := o.rt, cur := none,
               steps := { call := p.call, exch := p.exch, res := p.res, routed := p.routed, sidFor := p.sidFor } :: st.steps }
 
 def stepLine (st : St) (toks : List String) : St :=
   match toks with
-  | ["cfg", h, c] => (match tokS h, tokS c with
+  | ["cfg", h, c] =>
+      let st := finalize st
+      (match tokS h, tokS c with
       | some h, some c => { st with cfg := ⟨h, c⟩ }
       | _, _ => bad st "bad cfg")
   | ["probe", ps] => (match (commaList ps).mapM tokS with
@@ -219,7 +224,7 @@ def main : IO UInt32 := do
         n := n + 1
         st := finalize st
         let steps := st.steps.reverse
-        let j := C09.ok steps && st.parseOk
+        let j := C09.ok steps && st.cbOk && st.parseOk
         let inDom := steps.all stepInScope
         let mut notes := st.notes.take 3
         if !j then
